@@ -391,3 +391,93 @@ Proof.
   - apply Conv_no_input. apply Hn. exact Hnil.
   - apply Conv_run; [rewrite Hn; exact Hne|apply Hm; exact Hmg|exact Hs].
 Qed.
+
+(* ------------------------------------------------------------------ every named file is read exactly once *)
+Lemma sentry_eqb_eq l a b : KeyInj l -> In a l -> In b l -> (sentry_eqb a b = true <-> a = b).
+Proof.
+  intros Hk Ia Ib. unfold sentry_eqb. rewrite andb_true_iff, !N.eqb_eq. split.
+  - intros [H _]. apply Hk; assumption.
+  - intros ->. auto.
+Qed.
+
+Lemma dedup_sorted_NoDup (l : list sentry) :
+  StronglySorted key_le l -> KeyInj l -> NoDup (dedup_adj l) /\ (forall x, In x l -> In x (dedup_adj l)).
+Proof.
+  induction l as [|a r IH]; intros Hs Hk; [split; [constructor|intros x []]|].
+  inversion Hs as [|? ? Hsr Ha]; subst.
+  assert (Hkr : KeyInj r) by (intros x y Hx Hy; apply Hk; right; assumption).
+  destruct (IH Hsr Hkr) as [Hnd Hall].
+  cbn [dedup_adj]. destruct r as [|b r'].
+  - split; [repeat constructor; intros []|intros x [Hx|[]]; left; exact Hx].
+  - destruct (sentry_eqb a b) eqn:E.
+    + apply (sentry_eqb_eq (a :: b :: r')) in E; [|exact Hk|left; reflexivity|right; left; reflexivity]. subst b.
+      split; [exact Hnd|]. intros x [Hx|Hx]; [subst x; apply Hall; left; reflexivity|apply Hall; exact Hx].
+    + split.
+      * constructor; [|exact Hnd]. intros Hin. apply dedup_incl in Hin.
+        assert (Hab : a = b); [|subst b; rewrite (proj2 (sentry_eqb_eq _ a a Hk (or_introl eq_refl) (or_introl eq_refl)) eq_refl) in E; discriminate].
+        destruct Hin as [Hin|Hin]; [auto|].
+        inversion Hsr as [|? ? _ Hb]; subst. rewrite Forall_forall in Ha, Hb.
+        specialize (Ha b (or_introl eq_refl)). specialize (Hb a Hin). unfold key_le in *.
+        apply Hk; [left; reflexivity|right; left; reflexivity|lia].
+      * intros x [Hx|Hx]; [left; exact Hx|right; apply Hall; exact Hx].
+Qed.
+
+Lemma normalize_NoDup es s : KeyInj es -> In s (part es) ->
+  NoDup (normalize s) /\ (forall x, In x (normalize s) <-> In x es /\ fits s x = true).
+Proof.
+  intros Hk Hs. destruct (pi_content _ _ (PInv_part es) s Hs) as [E _]. unfold normalize. rewrite E.
+  assert (Hkf : KeyInj (sort_time (filter (fits s) es))).
+  { eapply KeyInj_perm; [apply Permutation_sym, sort_time_perm|apply KeyInj_filter; exact Hk]. }
+  destruct (dedup_sorted_NoDup _ (sort_time_sorted _) Hkf) as [Hnd Hall]. split; [exact Hnd|].
+  intros x. rewrite <- filter_In. split.
+  - intros H. apply dedup_incl in H. apply (Permutation_in _ (sort_time_perm _)) in H. exact H.
+  - intros H. apply Hall. apply (Permutation_in _ (Permutation_sym (sort_time_perm _))). exact H.
+Qed.
+
+Lemma NoDup_concat_disjoint {A} (ls : list (list A)) :
+  Forall (@NoDup A) ls ->
+  ForallOrdPairs (fun a b => forall x, In x a -> ~ In x b) ls -> NoDup (concat ls).
+Proof.
+  induction ls as [|l r IH]; intros Hn Hd; [constructor|].
+  inversion Hn; subst. inversion Hd as [|? ? Hl Hr]; subst. cbn.
+  apply NoDup_app_intro; [assumption|apply IH; assumption|].
+  intros x Hx Hc. apply in_concat in Hc. destruct Hc as [l' [Hl' Hx']].
+  rewrite Forall_forall in Hl. exact (Hl l' Hl' x Hx Hx').
+Qed.
+
+(* under [DistinctFirst] the streams contain every named file that has a message exactly once (a file named
+   twice, or under two spellings of its path, is read once), and nothing else *)
+Theorem streams_files args :
+  DistinctFirst args ->
+  NoDup (concat (streams_of args)) /\
+  (forall e, In e (concat (streams_of args)) <-> In e (entries (files_ok args))).
+Proof.
+  intros Hd. pose proof (DistinctFirst_KeyInj _ Hd) as Hk. set (es := entries (files_ok args)) in *.
+  rewrite streams_entries. fold es.
+  assert (P : Permutation (concat (map snd (sort_time (keyed_streams es)))) (concat (map normalize (part es)))).
+  { rewrite <- !flat_map_concat_map. unfold keyed_streams.
+    eapply Permutation_trans; [apply Permutation_flat_map, sort_time_perm|].
+    rewrite !flat_map_concat_map, map_map. cbn [snd]. rewrite map_id. apply Permutation_refl. }
+  pose proof (PInv_part es) as Hinv.
+  split.
+  - apply (Permutation_NoDup (Permutation_sym P)). apply NoDup_concat_disjoint.
+    + rewrite Forall_map, Forall_forall. intros s Hs. exact (proj1 (normalize_NoDup es s Hk Hs)).
+    + destruct Hinv as [_ Hi _].
+      assert (Hall : forall s, In s (part es) -> In s (part es)) by auto. revert Hall Hi.
+      generalize (part es) at 1 3 4. intros Q HQ Hi.
+      induction Q as [|s r IH]; [constructor|]. cbn [map] in *. inversion Hi as [|? ? Hs Hr]; subst.
+      constructor; [|apply IH; [intros s0 H0; apply HQ; right; exact H0|exact Hr]].
+      rewrite Forall_map, Forall_forall. intros s' Hs' x Hx Hx'.
+      apply (normalize_NoDup es s Hk (HQ s (or_introl eq_refl))) in Hx.
+      apply (normalize_NoDup es s' Hk (HQ s' (or_intror Hs'))) in Hx'.
+      rewrite Forall_forall in Hs. specialize (Hs (fst s') (in_map fst _ _ Hs')). cbv beta in Hs.
+      destruct Hx as [_ F1]. destruct Hx' as [_ F2]. unfold fits in *.
+      rewrite set_eqb_sym in F2. rewrite (set_eqb_trans _ _ _ F1 F2) in Hs. discriminate.
+  - intros e. split.
+    + intros H. apply (Permutation_in _ P) in H. apply in_concat in H. destruct H as [l [Hl He]].
+      apply in_map_iff in Hl. destruct Hl as [s [El Hs]]. subst l.
+      apply (normalize_NoDup es s Hk Hs) in He. tauto.
+    + intros H. apply (Permutation_in _ (Permutation_sym P)). destruct (pi_cover _ _ Hinv e H) as [s [Hs Hf]].
+      apply in_concat. exists (normalize s). split; [apply in_map; exact Hs|].
+      apply (normalize_NoDup es s Hk Hs). tauto.
+Qed.
